@@ -37,6 +37,9 @@ from vlib import Inconclusive
 
 ENTRY = 2 + 1 + 64 + 1 + 64 + 1 + 20 + 1 + 20 + 1   # lintcmd/cache entrySize
 KEYS = [bytes([0x40]) + b"\x11" * 31, bytes([0x90]) + b"\x22" * 31]
+GATES = ["c_stat", "c_verify", "c_open", "c_write", "c_last", "c_chtimes", "i_open", "i_write", "i_trunc", "i_chtimes",
+         "g_open", "g_read", "gi_ustat", "gi_uchtimes", "gd_ustat", "gd_uchtimes", "ret_name", "cl_read",
+         "t_stamp", "t_readdir", "t_stat", "t_rm", "t_wstamp"]
 SHAPE_PREFIX = "trim-stat/getfile-hit/trim-remove/reput-create/open"
 SHAPE_ENOENT = "trim-stat/getfile-hit/trim-remove/open-enoent"
 
@@ -552,9 +555,15 @@ def run(ctx):
 
     sc = vlib.go_build_repo(ctx, "./cmd/staticcheck")
     quick = ctx.quick
+    # VERIF_C05_CAP=n (development aid): thorough tier with at most n behaviours per binding and the quick
+    # exhaustive config, to exercise the thorough code path on a busy machine. Unset in normal use.
+    cap = int(os.environ.get("VERIF_C05_CAP", "0") or 0)
+
+    def capped(xs):
+        return xs if not cap else vlib.sample(ctx, xs, cap)
 
     # ---- 1. TLC: exhaustive invariants + generation configs, side by side
-    jobs = [("exh", "Q" if quick else "A"), ("gen", "C"), ("gen", "DQ" if quick else "D"), ("gen", "G"), ("gen", "T")]
+    jobs = [("exh", "Q" if quick or cap else "A"), ("gen", "C"), ("gen", "DQ" if quick else "D"), ("gen", "G"), ("gen", "T")]
 
     def tlc_job(job):
         what, name = job
@@ -566,12 +575,18 @@ def run(ctx):
         return tlc_gen(ctx, name, workers=2)
 
     tl = dict(zip([j[1] for j in jobs], vlib.pmap(tlc_job, jobs, workers=len(jobs))))
-    exh = tl["Q" if quick else "A"][0]
-    # vacuity: every action of the spec must be taken in the exhaustive config (Foreign needs two keys; it is
-    # exercised by the D configs)
-    never = sorted(set(exh.coverage_zero) - {"Foreign"})
-    if not quick and never:
-        raise Inconclusive("exhaustive config never takes: %s" % never)
+    exh = tl["Q" if quick or cap else "A"][0]
+    # vacuity: every disjunct of the next-state relation must be taken in the exhaustive config (Foreign needs
+    # two keys; it is exercised by the D configs)
+    if not quick:
+        spec_lines = open(os.path.join(vlib.SPECS, "DiskCache.tla")).read().splitlines()
+        never = []
+        for m in re.finditer(r"<Steps line \d+, col \d+ to line \d+, col \d+ of module DiskCache \((\d+) \d+ \d+ \d+\)>: 0:0", exh.out):
+            text = spec_lines[int(m.group(1)) - 1].strip()
+            if "Foreign" not in text:
+                never.append(text)
+        if never:
+            raise Inconclusive("exhaustive config never takes: %s" % never)
     states = sum(t[0].distinct for t in tl.values())
     transitions = sum(t[0].generated for t in tl.values())
 
@@ -581,7 +596,7 @@ def run(ctx):
     # ---- 2. crash points (C): child processes, one byte per Read, SIGKILL at the gate
     ccfg = cfgs["C"]
     c_all = tl["C"][1]
-    c_sel = c_all if not quick else vlib.sample(ctx, c_all, 220)
+    c_sel = capped(c_all) if not quick else vlib.sample(ctx, c_all, 220)
     c_cases = mk_cases(c_sel, "seq")
     res, _ = replay(ctx, helper, write_real(ctx, ccfg, "C"), c_cases)
     judge(ctx, st, "crash", "C", ccfg, c_cases, res)
@@ -594,7 +609,7 @@ def run(ctx):
     dname = "DQ" if quick else "D"
     dcfg = cfgs[dname]
     d_all = tl[dname][1]
-    d_sel = d_all if not quick else vlib.sample(ctx, d_all, 500)
+    d_sel = capped(d_all) if not quick else vlib.sample(ctx, d_all, 500)
     d_cases = mk_cases(d_sel, "seq", tornlen=lambda i, s: ctx.rng.choice([1, 2, 3, 67, 68, 69, 132, 133, 134, 154, 155, ENTRY - 2, ENTRY - 1]), inproc_put=True)
     sweep = index_sweep_cases(d_all)
     if set(sweep) != {"getfile", "getbytes"}:
@@ -621,7 +636,7 @@ def run(ctx):
         ids = {id(c) for c in keep}
         g_sel = keep + vlib.sample(ctx, [c for c in g_all if id(c) not in ids], 380)
     else:
-        g_sel = g_all
+        g_sel = capped(g_all)
     g_cases = mk_cases(g_sel, "gor")
     res, _ = replay(ctx, helper, write_real(ctx, gcfg, "G"), g_cases)
     judge(ctx, st, "concurrency", "G", gcfg, g_cases, res)
@@ -638,7 +653,10 @@ def run(ctx):
     sim_cases = 0
     if not quick:
         # larger world by simulation: 3 processes x 2 operations, 2 keys, 3 values
-        r_sim, s_all = tlc_gen(ctx, "S", workers=4, simulate="num=1500", depth=90, timeout=3000)
+        r_sim, s_all = tlc_gen(ctx, "S", workers=4, simulate="num=%d" % (1500 if not cap else max(cap // 4, 5)), depth=200, timeout=3000)
+        m = re.search(r"The number of states generated: (\d+)", r_sim.out)
+        states += int(m.group(1)) if m else 0
+        transitions += int(m.group(1)) if m else 0
         scfg = cfgs["S"]
         s_cases = mk_cases(s_all, "gor", tornlen=lambda i, s: 1 + (i * 7) % (ENTRY - 1))
         res, _ = replay(ctx, helper, write_real(ctx, scfg, "S"), s_cases)
@@ -670,6 +688,10 @@ def run(ctx):
     n_unstable = unstable_source(ctx, helper)
 
     # ---- vacuity
+    acted = {s["a"] for cs in (c_cases, d_cases, g_cases, t_cases) for c in cs for s in c["steps"]}
+    want = set(GATES) | {"start", "crash", "truncate", "delete", "age", "foreign"}
+    if want - acted:
+        raise Inconclusive("replayed behaviours never take: %s" % sorted(want - acted))
     if st.hits == 0 or st.misses == 0 or crashed_puts == 0:
         raise Inconclusive("replays were vacuous: hits=%d misses=%d crashed puts=%d" % (st.hits, st.misses, crashed_puts))
     if st.drifts:
